@@ -221,6 +221,8 @@ def _memcheck_errors(txt):
     res = []
     for b in re.split(r"\n==\d+== \n", txt):
         lines = [re.sub(r"^==\d+== ?", "", l) for l in b.splitlines() if re.match(r"^==\d+==", l)]
+        while lines and re.match(r"Thread \d+.*:$", lines[0].strip()):
+            lines = lines[1:]
         if len(lines) < 2 or not re.match(r"\s+at 0x", lines[1]):
             continue
         kind = re.sub(r"\d+", "N", lines[0].strip())[:80]
